@@ -123,7 +123,8 @@ def _worker(payload):
     fn, arg = payload
     from vx import harness
 
-    harness.limit_memory(8.0)
+    if not os.environ.get("VX_NO_RLIMIT"):
+        harness.limit_memory(8.0)
     rec = Rec()
     try:
         fn(rec, arg)
